@@ -437,6 +437,66 @@ def unit_nested(unit):
     return agg
 
 
+def unit_long(unit):
+    """size thresholds: vectors / table columns of 17..129 elements; cached fingerprint, then one or two writes of designated shapes
+    (single cell at the ends and the middle, slices covering less / exactly / more than half, every-second mask, index list with
+    a repeated index, whole vector, promoting write), through the vector, a live column view, a table cell or a table region"""
+    from serif import Vector, Table
+    _, n = unit
+    agg = Agg()
+    vals0 = [(i * 37) % 101 for i in range(n)]
+
+    def writes():
+        h = n // 2
+        yield "cell-first", lambda v: v.__setitem__(0, 1000)
+        yield "cell-middle", lambda v: v.__setitem__(h, 1001)
+        yield "cell-last", lambda v: v.__setitem__(n - 1, 1002)
+        yield "slice-less-than-half", lambda v: v.__setitem__(slice(0, h - 1), [2000 + i for i in range(h - 1)])
+        yield "slice-exactly-half", lambda v: v.__setitem__(slice(0, h), [2100 + i for i in range(h)])
+        yield "slice-more-than-half", lambda v: v.__setitem__(slice(0, h + 2), [2200 + i for i in range(h + 2)])
+        yield "slice-all", lambda v: v.__setitem__(slice(None), [2300 + i for i in range(n)])
+        yield "slice-step", lambda v: v.__setitem__(slice(1, None, 3), 2400)
+        yield "mask-every-2nd", lambda v: v.__setitem__([i % 2 == 0 for i in range(n)], 2500)
+        yield "index-repeated", lambda v: v.__setitem__([3, n - 1, 3], [2600, 2601, 2602])
+        yield "promote", lambda v: v.__setitem__(h, 0.5)
+        yield "none", lambda v: v.__setitem__(n - 2, None)
+        yield "swap-ends", lambda v: v.__setitem__([0, n - 1], [v._underlying[n - 1], v._underlying[0]])
+        yield "same-value", lambda v: v.__setitem__(h, v._underlying[h])
+    W = list(writes())
+    seqs = [(w,) for w in W] + [(a, b) for a in W[:6] for b in W if a is not b]
+    for through in ("vector", "column-view", "table-cell-path"):
+        for seq in seqs:
+            for primed in ((True, False) if len(seq) == 1 else (True,)):
+                agg.evals += 1; agg.transitions += 1 + len(seq); agg.states += 1; agg.nontrivial += 1; agg.compared += 1
+                case = {"family": "long vectors", "len": n, "writes": [w[0] for w in seq], "through": through, "fingerprint_cached_before": primed}
+                try:
+                    if through == "vector":
+                        v = Vector(list(vals0)); t = None
+                    else:
+                        t = Table([Vector(list(vals0), name="a"), Vector(list(range(n)), name="b")])
+                        v = t["a"]
+                    if primed:
+                        v.fingerprint()
+                        if t is not None:
+                            t.fingerprint()
+                    for wi, (_, wf) in enumerate(seq):
+                        wf(v if through != "table-cell-path" else t["a"])
+                        if wi == 0 and len(seq) == 2:
+                            v.fingerprint()              # cached again between the two writes
+                    v = v if t is None else t["a"]
+                    good = v.fingerprint() == Vector(list(v._underlying)).fingerprint()
+                    if t is not None:
+                        good = good and t.fingerprint() == Table([Vector(list(c._underlying)) for c in t._underlying]).fingerprint()
+                except Exception as e:
+                    agg.violation(V("fingerprint.long", "raises-" + type(e).__name__, case, None, repr(e)[:80]))
+                    continue
+                if not good:
+                    agg.violation(V("fingerprint.long", "stale-after-" + seq[-1][0], case))
+                else:
+                    agg.outcomes["long-fingerprints-current"] += 1
+    return agg
+
+
 def check(ctx):
     agg = Agg()
     depth = ctx.pick(3, 4)
@@ -450,6 +510,8 @@ def check(ctx):
     for p in core.pmap(unit_changes, units):
         agg.merge(p)
     for p in core.pmap(unit_promotions, [("promote",)]):
+        agg.merge(p)
+    for p in core.pmap(unit_long, [("long", n) for n in (17, 32, 33, 64, 65, 129)]):
         agg.merge(p)
     ND = ctx.pick(4, 6)
     for p in core.pmap(unit_nested, [("nested", ev, ND) for ev in NESTED_EVENTS]):
